@@ -89,6 +89,7 @@ type executor struct {
 	wroteIndented bool
 	venv *venv
 	mapOrder int
+	replaced map[string]bool
 	evlog []outRec // environment events (stdout writes, file writes...) in order
 }
 
